@@ -5,21 +5,32 @@ SPEC = dict(
     sources=["SimbodyModel/Proto.lean", "SimbodyModel/C21.lean", "SimbodyProofs/C21.lean", "Drivers/C21.lean"],
     n=dict(quick=150, thorough=3000),
     rtol=0.0, atol=0.0,
-    modes=[""],
+    modes=["", "oracle"],
     flow="harness_first",
-    rule="one record per state returned by Integrator::stepTo (step states, interpolated report states, event before-states) "
-         "on random constrained multibody models: chains of 1-3 Pin/Ball/Free mobilizers (Ball/Free use quaternions) closed by "
-         "Rod and/or PointInPlane constraints, optional ConstantSpeed constraint or prescribed Motion::Sinusoid, all 10 "
-         "integrators, random accuracy 1e-2..1e-5, constraint tolerance, RMS/infinity norm, project-every-step, interpolation "
-         "on/off, projection of interpolated states on/off, return-every-step, fixed step size (separate key class), time "
-         "witnesses; distinct = distinct records",
-    partial="numerically partial as C09: `project` is an oracle in the decision-structure model and the returned states are "
-            "checked by the exact acceptance contract (weighted RMS / infinity norms <= tolerance, 1e-9 relative slack) and the "
-            "P lines; the overridden attemptDAEStep of Verlet / the Euler variants and CPodes' projection callback are covered by "
-            "the contract and P lines only; the link `step accepted <=> error norm <= accuracy` is C20's adjust_success_iff_err_le_acc",
+    rule="mode '': one record per state returned by Integrator::stepTo (step states, interpolated report states, event before-states, "
+         "StartOfContinuousInterval state) on random constrained multibody models: chains of 1-3 Pin/Ball/Free mobilizers (Ball/Free use "
+         "quaternions) closed by Rod and/or PointInPlane constraints, optional ConstantSpeed constraint, prescribed Motion::Sinusoid at "
+         "Position or Velocity level (guaranteed share), all 10 integrators, random accuracy 1e-2..1e-5, constraint tolerance, "
+         "RMS/infinity norm, project-every-step, interpolation on/off, projection of interpolated states on/off, return-every-step, "
+         "final time, scheduled times, fixed step size (own key class), time witnesses; "
+         "mode 'oracle': one record per stepTo call of RungeKuttaMerson/Feldberg/3/2 (the integrators using the default attemptDAEStep) "
+         "on a harness-defined constrained System whose projectQImpl/projectUImpl log every call and fail on demand; "
+         "distinct = distinct records",
+    partial="(i) proved about the EXECUTED decision structure (attemptDAECore/stepLoop/handOut/callProv/sessionProv, replayed against the "
+            "implementation in mode 'oracle' for the 4 integrators with the default attemptDAEStep): every state handed out by an "
+            "error-controlled integrator without a forcing minimum step size is the output of successful projections (or prescribed-only "
+            "when projection of interpolated states is off), convergence-failure counts, which projections are called, when stepTo throws; "
+            "(ii) predicate/contract only: that a successful projection really meets the tolerance (project is an oracle, C09) - checked on "
+            "every returned state of all 10 integrators by the exact acceptance contract + P lines; prescribed motion (P line; no "
+            "`prescribed_reapplied` theorem exists: prescribeQ/prescribeU are not modelled); Verlet / ExplicitEuler / SemiExplicitEuler(2) "
+            "override attemptDAEStep and CPodes uses CPODES' projection callback: their decision structure is NOT modelled; "
+            "(iii) not covered: constraint types other than Rod / PointInPlane / ConstantSpeed, acceleration-level Motion, state-changing "
+            "event handlers (the states they leave are the handler's responsibility), the link `step accepted <=> error norm <= accuracy` "
+            "is C20's adjust_success_iff_err_le_acc (not imported)",
     assumptions=[
         "projectQ / projectU are oracles that either succeed at the tolerance in use or fail (C09)",
         "interpolated states handed out with setProjectInterpolatedStates(false) are exempt (the property says so)",
         "constraint error norms are those SimbodyMatterSubsystemRep::projectQ/U test: QErrWeights-weighted holonomic errors, unweighted quaternion errors, UErrWeights-weighted velocity errors",
+        "oracle mode: trial steps that were gated (error estimate > 2^p accuracy, no projection call) are invisible in the call trace; the driver treats the last visible trial step as the accepted one when no minimum step size forces acceptance (anything else is reported as a mismatch)",
     ],
 )
